@@ -95,7 +95,9 @@ func (a *Arg) Resolve(field *Field, args map[string]interface{}) (result interfa
 		result = a.Type
 	case defaultValueStr:
 		result = a.Default
-		switch result.(type) {
+		switch tv := result.(type) {
+		case Symbol:
+			result = string(tv)
 		case []interface{}, map[string]interface{}:
 			// A list or an object can only be given as it is written in SDL.
 			var b strings.Builder
